@@ -402,7 +402,11 @@ func checkC11(rep *Report, pool *DriverPool, c *RCase) {
 func checkC13(rep *Report, pool *DriverPool, c *RCase) {
 	stream, _, _, shape, dict := c.input()
 	fresh := RunR(c.API, false, stream, dict, c.Src, "new", nil, c.Reads, c.RSeed, 0)
-	re := RunR(c.API, false, stream, dict, c.Src, "reuse", c.Prior, c.Reads, c.RSeed, 0)
+	ctor := "reuse"
+	if c.Ctor == "reuse-same" {
+		ctor = "reuse-same"
+	}
+	re := RunR(c.API, false, stream, dict, c.Src, ctor, c.Prior, c.Reads, c.RSeed, 0)
 	rep.Eval(fmt.Sprintf("%s|%s|%d|%s|%d|%d", c.API, shape, len(stream), c.Prior.Stream.Kind, c.Prior.Read, c.Prior.Cut), c.sample()+fmt.Sprintf(" prior=%s read=%d cut=%d", c.Prior.Stream.describe(), c.Prior.Read, c.Prior.Cut))
 	rep.Count("api:" + c.API)
 	rep.Count("fresh:" + fresh.Err + fresh.CtorErr)
